@@ -4,7 +4,7 @@ Edges.v (Impl: grouping / merge by source node / weight matrix / multi-source su
 proofs in EdgesProofs.v; theorems in coq/properties/C01.v.
 Tie: E1 — random networks are compiled by the real get_run_func and evaluated at dyadic points; every state
 variable's derivative is compared, as an exact rational, with Spec and Impl evaluated inside Coq."""
-import json, os
+import json, os, collections
 from fractions import Fraction as Fr
 from core import *
 
@@ -61,7 +61,9 @@ def build(case):
             elif kind == "input":
                 variables[name] = f"input({v})"
             elif kind == "const":
-                variables[name] = float(Fr(val))
+                variables[name] = int(Fr(val)) if name in o.get("ints", []) else float(Fr(val))
+            elif name in o.get("plain_alg", []):
+                variables[name] = float(Fr(val))        # an algebraic variable declared like a parameter (`m: 0.5`, equation `m = ...`)
             else:
                 variables[name] = f"variable({v})"
         eqs = [(f"{lhs}' = " if de else f"{lhs} = ") + poly_str(p) for lhs, de, p in o["eqs"]]
@@ -89,7 +91,7 @@ def impl(case):
             net = build(case)
             func, args, arg_names, smap = net.get_run_func("vf", 0.0078125, file_name="c01_vf", vectorize=False, backend="default",
                                                            float_precision="float64", solver="euler", in_place=False,
-                                                           clear=False, verbose=False)
+                                                           clear=False, verbose=bool(case.get("verbose", False)))
         except Exception as e:
             return dict(stage="compile", **pyr.errclass(e))
         names = list(arg_names)
@@ -217,7 +219,12 @@ def gen_ops(rng, n_ops, small=False):
         rng.shuffle(eqs)
         decl = [[v, kinds[v], q4(rng)] for v in lhs_vars] + [[v, "input", q4(rng)] for v in inputs] + [[v, "const", q4(rng, nz=True)] for v in consts]
         rng.shuffle(decl)
-        ops[onames[j]] = dict(vars=decl, eqs=eqs, out=out)
+        ints = [v for v in consts if rng.random() < 0.3]
+        for d_ in decl:
+            if d_[0] in ints:
+                d_[2] = str(rng.choice([-3, -2, -1, 1, 2, 3]))       # declared as a Python int (never overridden with a float: D97)
+        plain = [v for v in lhs_vars if kinds[v] == "alg" and v != out and rng.random() < 0.5]
+        ops[onames[j]] = dict(vars=decl, eqs=eqs, out=out, ints=ints, plain_alg=plain)
         outs.append(out)
     # the operators were built in dependency order; the dict keeps that order (nodes pick their own declaration order)
     if n_ops >= 2 and rng.random() < 0.3:
@@ -239,7 +246,7 @@ def gen_tree(rng, ops, depth, n_nodes):
         for on in chosen:
             ov = {}
             for vn, kind, val in ops[on]["vars"]:
-                if rng.random() < 0.25:
+                if rng.random() < 0.25 and vn not in ops[on].get("ints", []):
                     ov[vn] = q4(rng, nz=(kind == "const"))
             nops.append([on, ov])
         return [name, nops]
@@ -304,11 +311,12 @@ def gen_case(rng, mode="valid"):
                         tgts.append((path, opname(on), vn))
         if not tgts or not srcs:
             continue
-        n_e = rng.choice([0, 1, 2, 2, 3, 3, 4, 5, 6, 8])
+        n_e = rng.choice([0, 1, 2, 2, 3, 3, 4, 5, 6, 8, 11, 14])
+        hub = rng.choice(tgts) if n_e >= 10 else None          # >= 10 edges: most of them converge on one input
         chosen = {}
         edges = []
         for _ in range(n_e):
-            t = rng.choice(tgts)
+            t = hub if hub and rng.random() < 0.7 else rng.choice(tgts)
             if edges and rng.random() < 0.3:
                 s, t = rng.choice(edges)            # a parallel edge
             elif rng.random() < 0.15:
@@ -316,10 +324,10 @@ def gen_case(rng, mode="valid"):
                 s = rng.choice(cand) if cand else rng.choice(srcs)
             else:
                 s = rng.choice(srcs)
-            if mode != "d22" and s[2] == t[2]:
+            if mode != "d22" and s[2] == t[2] and not fixed("D22"):
                 continue
             key = (t, s[0])
-            if mode != "d3" and chosen.get(key, s) != s:
+            if mode != "d3" and chosen.get(key, s) != s and not fixed("D3"):
                 s = chosen[key]
             chosen.setdefault(key, s)
             edges.append((s, t))
@@ -340,7 +348,7 @@ def gen_case(rng, mode="valid"):
         for s, t in edges:
             r_ = rng.random()
             add_edge(tree, "/".join(s), "/".join(t), q4(rng, nz=True) if r_ < 0.75 else ("1" if r_ < 0.85 else None), rng)
-        case = dict(ops=ops, tree=tree, points=[], mode=mode)
+        case = dict(ops=ops, tree=tree, points=[], mode=mode, verbose=rng.random() < 0.25)
         if not py_wf(case):
             continue
         if mode != "d22" and not py_guard_names(case) and not fixed("D22"):
@@ -351,7 +359,9 @@ def gen_case(rng, mode="valid"):
             continue
         if mode != "lab" and not py_guard_labels(case) and not fixed("D22b"):
             continue
-        if (mode == "d3") == py_guard_d3(case):
+        if mode == "d3" and py_guard_d3(case):
+            continue
+        if mode != "d3" and not py_guard_d3(case) and not fixed("D3"):
             continue
         svars = [("/".join(s)) for s in srcs if kind_of(case, s) == "state"]
         pvars = param_vars(case)
@@ -359,7 +369,7 @@ def gen_case(rng, mode="valid"):
         for i in range(3):
             st = {v: q4(rng, -6, 6) for v in svars}
             pts.append(dict(state=st, params={}))
-            pts.append(dict(state=st, params={v: q4(rng, -6, 6) for v in pvars}))
+            pts.append(dict(state=st, params={v: (str(rng.randint(-3, 3)) if is_int_const(case, v) else q4(rng, -6, 6)) for v in pvars}))
         case["points"] = pts
         if not exact_ok(case):
             continue
@@ -389,6 +399,15 @@ def kind_of(case, vid):
                         if vn2 == vn:
                             return kind
     return None
+
+def is_int_const(case, v):
+    path, on, vn = split_vid(v)
+    for p, nops in tree_nodes(case["tree"]):
+        if p == path:
+            for key, _ in nops:
+                if opname(key) == on:
+                    return vn in case["ops"][key].get("ints", [])
+    return False
 
 def split_vid(s):
     *n, o, v = s.split("/")
@@ -651,7 +670,7 @@ def model_compare(ctx, cases, outs, tag):
        nwf: not well-formed; g_d3 / g_names / g_labels: guard false."""
     res = dict(badS=[], badI=[], nwf=[], g_d3=[], g_names=[], g_labels=[])
     shard = 25
-    for s in range(0, len(cases), shard):
+    def one(s):
         body, observed = [], []
         for i in range(s, min(s + shard, len(cases))):
             txt, ok = coq_case(i - s, cases[i], outs[i])
@@ -667,6 +686,11 @@ def model_compare(ctx, cases, outs, tag):
         o = coq_eval(ctx, f"c01_{tag}_{s}", HEADER, "\n".join(body))
         ls = parse_nat_lists(o)
         assert len(ls) == 6, o[:600]
+        return s, k, observed, ls
+    from concurrent.futures import ThreadPoolExecutor
+    with ThreadPoolExecutor(max_workers=max(1, min(int(os.environ.get("VERIF_JOBS", "4")), 8))) as ex:
+        results = list(ex.map(one, range(0, len(cases), shard)))
+    for s, k, observed, ls in results:
         obs_idx = [s + i for i in range(k) if observed[i]]
         res["badS"] += [obs_idx[i] for i in ls[0]]; res["badI"] += [obs_idx[i] for i in ls[1]]
         for name, l in zip(("nwf", "g_d3", "g_names", "g_labels"), ls[2:]):
@@ -860,6 +884,13 @@ def check(ctx):
                 depth={d: sum(1 for c in cases if max(p.count("/") for p, _ in tree_nodes(c["tree"])) == d) for d in range(3)},
                 edges=sum(len(tree_edges(c["tree"])) for c in cases),
                 with_parallel_edges=sum(1 for c in cases if len({(s_, t_) for s_, t_, _ in tree_edges(c["tree"])}) < len(tree_edges(c["tree"]))),
+                max_fan_in=max((max(collections.Counter(t_ for _, t_, _ in tree_edges(c["tree"])).values(), default=0) for c in cases), default=0),
+                networks_with_fan_in_ge_10=sum(1 for c in cases if max(collections.Counter(t_ for _, t_, _ in tree_edges(c["tree"])).values(), default=0) >= 10),
+                int_declared_constants=sum(len(o.get("ints", [])) for c in cases for o in c["ops"].values()),
+                algebraic_declared_as_plain_float=sum(len(o.get("plain_alg", [])) for c in cases for o in c["ops"].values()),
+                verbose_compilations=sum(1 for c in cases if c.get("verbose")),
+                nodes_without_state_variable=sum(1 for c in cases for p_, nops in tree_nodes(c["tree"])
+                                                 if not any(k == "state" for on, _ in nops for _, k, _ in c["ops"][on]["vars"])),
                 weightless_edges=sum(1 for c in cases for _, _, w in tree_edges(c["tree"]) if w is None),
                 same_name_different_operators=sum(1 for c in cases if any("#" in k for k in c["ops"])),
                 with_self_loop=sum(1 for c in cases if any(split_vid(s_)[0] == split_vid(t_)[0] for s_, t_, _ in tree_edges(c["tree"]))),
